@@ -96,6 +96,8 @@ package keeper
 //@ modifies G_*
 //@ ensures [only_governance_authority] err == nil ==> req.Authority == k.keeper.authority
 //@ ensures [rejected_request_changes_nothing] req.Authority != k.keeper.authority ==> err != nil && nothing_written()
+//@ ensures [rotation_counter_stays_within_the_new_list] err == nil ==> oracle.CyclelistSequencer < count(oracle.Cyclelist)
+//@ ensures [empty_list_rejected] len(req.Cyclelist) == 0 ==> err != nil && nothing_written()
 
 // ---- MsgTip (C03, C04, C19) ----
 
@@ -277,3 +279,23 @@ package keeper
 //@ ensures [power_is_the_stake_in_whole_tokens] err == nil && called(DirectReveal) ==> arg(DirectReveal, votingPower) == ret(ReporterStake, 0) / 1000000 && arg(DirectReveal, bridgeDeposit) == ret(PreventBridgeWithdrawalReport, 0)
 //@ ensures [power_is_the_stake_in_whole_tokens_for_new_deposit_rounds] err == nil && !called(DirectReveal) ==> called(HandleBridgeDepositDirectReveal) && arg(HandleBridgeDepositDirectReveal, voterPower) == ret(ReporterStake, 0) / 1000000 && ret(PreventBridgeWithdrawalReport, 0)
 //@ ensures [report_goes_to_the_latest_round] err == nil && called(DirectReveal) ==> arg(DirectReveal, query) == ret(CurrentQuery, 0) && ret(CurrentQuery, 1) == nil
+
+// ---- cycle list (C02, C07) ----
+// count(oracle.Cyclelist) is the number of queries in the cycle list; the rotation counter indexes it.
+
+//@ func (k Keeper).GetCyclelist(ctx) (list, err)
+//@ ensures [lists_every_query_of_the_cycle_list] err == nil && len(list) == count(oracle.Cyclelist)
+//@ ensures [reads_only] nothing_written()
+
+//@ func (k Keeper).GetCurrentQueryInCycleList(ctx) (querydata, err)
+//@ requires [rotation_counter_within_the_list] oracle.CyclelistSequencer < count(oracle.Cyclelist)
+//@ ensures [never_fails] err == nil
+//@ ensures [reads_only] nothing_written()
+
+//@ func (k Keeper).InitCycleListQuery(ctx, queries) (err)
+//@ modifies oracle.Cyclelist
+//@ ensures [never_fails] err == nil
+//@ ensures [a_non_empty_list_leaves_a_non_empty_cycle_list] len(queries) > 0 ==> count(oracle.Cyclelist) >= 1
+//@ ensures [at_most_one_entry_per_query] count(oracle.Cyclelist) <= old(count(oracle.Cyclelist)) + len(queries)
+//@ loop 0 "for _, querydata := range queries"
+//@ loop 0 invariant [entries_so_far] ($i > 0 ==> count(oracle.Cyclelist) >= 1) && count(oracle.Cyclelist) <= old(count(oracle.Cyclelist)) + $i
